@@ -80,7 +80,7 @@ def gen_scripts(tier, seed):
                                                 ("seq-e-first", "e200000,o1"), ("seq-o-first", "o200000,e1")]
     cases = []
     for i, (cls, s) in enumerate(scripts):
-        writer = ["plain", "slow", "trickle"][i % 3] if sum(parse_script(s)[:2]) < 3 * PIPE else ["plain", "plain", "slow"][i % 3]
+        writer = ["plain", "slow", "trickle", "mapped"][i % 4] if sum(parse_script(s)[:2]) < 3 * PIPE else ["plain", "mapped", "slow"][i % 3]
         api = ["output", "spawn"][(i // 3) % 2]
         cases.append({"class": cls, "script": s, "writer": writer, "api": api})
     return cases
@@ -124,6 +124,19 @@ def judge_stream(case, rep, res):
     want = {"stdout": expected_bytes("o", no), "stderr": expected_bytes("e", ne)}
     for stream in ("stdout", "stderr"):
         got = bytes.fromhex(rep["writer_" + stream])
+        if case["writer"] == "mapped":
+            # the writer is line_mapped(prefix): every newline-terminated segment and the non-empty remainder carry the prefix once
+            pre = b"O> " if stream == "stdout" else b"E> "
+            raw = want[stream]
+            segs = raw.split(b"\n")
+            exp = b"".join(pre + x + b"\n" for x in segs[:-1]) + (pre + segs[-1] if segs[-1] else b"")
+            if got != exp:
+                first = next((i for i in range(min(len(got), len(exp))) if got[i] != exp[i]), min(len(got), len(exp)))
+                sh_sig = "streams:mapped-writer"
+                res.violation(sh_sig, "%s(%r) with line-mapped writers: the %s writer's output differs from prefixing every line once (first difference at offset %d: got %r, expected %r)"
+                              % (case["api"], case["script"], stream, first, got[max(0, first - 20):first + 20], exp[max(0, first - 20):first + 20]), {"kind": "stream", "case": case})
+                return
+            continue
         if got != want[stream]:
             first = next((i for i in range(min(len(got), len(want[stream]))) if got[i] != want[stream][i]), min(len(got), len(want[stream])))
             res.violation("streams:writer-%s" % ("short" if len(got) < len(want[stream]) else "differs"),
